@@ -2,6 +2,7 @@
 //! tree) on generated operations and prints one line per operation:  `<op line> => <canonical output>`.
 //! The Lean driver is fed the `<op line>` part and must print the same `<canonical output>`.
 mod consts;
+mod fam_account;
 mod fam_admin;
 mod fam_auth;
 mod fam_bank;
@@ -66,6 +67,7 @@ fn main() {
                 "bankstate" => fam_gate::gen(&mut rng, n, &mut out),
                 "signer" => fam_auth::gen(&mut rng, n, &mut out),
                 "admin" => fam_admin::gen(&mut rng, n, &mut out),
+                "account" => fam_account::gen(&mut rng, n, &mut out),
                 "panic" => fam_panic::gen(&mut rng, n, &mut out),
                 _ => {
                     eprintln!("unknown family {}", fam);
